@@ -18,6 +18,8 @@ ROOT = os.path.dirname(os.path.dirname(os.path.abspath(__file__)))
 
 PROP_MODULES = {
     "C16": ["contracts.c16"],
+    "C17": ["contracts.c17"],
+    "C05": ["contracts.c05"],
 }
 
 
@@ -128,7 +130,7 @@ def decide(prop, tier, seed, results, known, wall):
         for label, ok in (r.get("canaries") or {}).items():
             if not ok:
                 canaries_bad.append({"contract": r["contract"], "canary": label})
-        aux_failed = [a for a in r["obligations"].values() if a["kind"] in ("inv-init", "inv-pres", "variant", "model-range", "unwind") and a["status"] != "discharged"]
+        aux_failed = [a for a in r["obligations"].values() if a["kind"] in ("inv-init", "inv-pres", "variant", "model-range", "unwind", "lemma") and a["status"] != "discharged"]
         for key, a in r["obligations"].items():
             obligations += 1
             fn["obligations"] += 1
@@ -143,7 +145,7 @@ def decide(prop, tier, seed, results, known, wall):
                 continue
             if a["status"] == "failed":
                 f = a.get("failure") or {}
-                if a["kind"] in ("inv-init", "inv-pres", "variant", "model-range", "unwind"):
+                if a["kind"] in ("inv-init", "inv-pres", "variant", "model-range", "unwind", "lemma"):
                     undecided.append({"contract": r["contract"], "obligation": oid, "reason": "auxiliary obligation (%s) not discharged: the supplied proof does not fit the current source" % a["kind"], "inputs": f.get("inputs")})
                     continue
                 if aux_failed and not f.get("confirmed"):
@@ -157,7 +159,9 @@ def decide(prop, tier, seed, results, known, wall):
                     violations.append(rec)
             else:
                 undecided.append({"contract": r["contract"], "obligation": oid, "reason": "solver: %s" % (a.get("detail") or "unknown")})
+    timing = sorted(((r.get("wall_s", 0.0), r.get("solver_secs", 0.0), r.get("paths", 0), r["contract"]) for r in results if not r.get("error")), reverse=True)[:12]
     return {
+        "timing": timing,
         "prop": prop, "tier": tier, "seed": seed, "obligations": obligations, "discharged": discharged, "violations": violations,
         "known_hits": known_hits, "undecided": undecided, "crashes": crashes, "functions": functions, "backends": backends,
         "solver_secs": solver_secs, "used_models": sorted(used_models), "inlined": sorted(inlined), "samples": samples, "paths": paths,
